@@ -300,6 +300,24 @@ theorem C04_streamset_nil_arg (w : World) (p : Nat) :
     (w.ssMinusStreams p none).1.setMap (w.ssMinusStreams p none).2 = [] :=
   ⟨rfl, setMap_newSet _ _, setMap_newSet _ _⟩
 
+/-! ### every Stream transformer at once -/
+
+/-- For EVERY unary Stream transformer of the alphabet (`Map`, `Filter`, `Reject`, `FilterNotNil`, `Distinct`,
+    `Clone`, `Reverse`, `Sort`, `SortByIndex`, `RemoveItem`, `Append`, `Remove` — both families, i.e. including the
+    interface{} in-place `Remove`), as dispatched by the driver (`execS1`): the returned handle holds
+    `specS1` of the receiver's elements. -/
+theorem C04_unary_stream_content (iface : Bool) {w : World} (hw : Wf w) {p : Nat} (hp : p < w.strs.length) (k : S1) :
+    (execS1 iface w p k).1.strContent (execS1 iface w p k).2 = specS1 iface k (w.strContent p) :=
+  execS1_content iface hw hp k
+
+/-- `Intersection(arg)` / `Minus(arg)` for any argument (nil, empty or not), on ELEMENTS (no header conditions):
+    `Intersection` of an empty argument is empty, `Minus` of an empty argument is the receiver's sequence. -/
+theorem C04_binary_stream_content {w : World} (hw : Wf w) (p : Nat) (q : Option Nat) :
+    ((w.strInter p q).1.strContent (w.strInter p q).2
+      = if (argContent w q).isEmpty then [] else Spec.inter (w.strContent p) (argContent w q)) ∧
+    ((w.strMinus p q).1.strContent (w.strMinus p q).2 = Spec.minus (w.strContent p) (argContent w q)) :=
+  ⟨strInter_content hw p q, strMinus_content hw p q⟩
+
 /-! ### results: the elements the sequence definition prescribes -/
 
 theorem C04_newStream_content (w : World) (l : List Int) (tail : Nat) :
